@@ -105,7 +105,8 @@ def mkRT (imp ctx bi : List Name) (ctxNone : List Name := []) : RT :=
 
 def sortStrs (xs : List String) : List String := (xs.toArray.qsort (· < ·)).toList
 
-def encScope (c : Cfg) (rt : RT) (tops : List Name) (extra : List Name) (bodyArgs : List Name) (s : Scope) : String :=
+def encScope (c : Cfg) (rt : RT) (tops : List Name) (extra : List Name) (bodyArgs : List Name) (loopFors : List Nat)
+    (s : Scope) : String :=
   let ids := s.ids
   let useLoc := (s.frames.headD {}).useLocals
   let decls := sortStrs ((toWrite c ids none).map fun x => encStr x ++ ":" ++ encDeclKind (classify c ids useLoc x))
@@ -125,6 +126,8 @@ def encScope (c : Cfg) (rt : RT) (tops : List Name) (extra : List Name) (bodyArg
       "U=" ++ (if !s.inDef && !ids.locAssigned.isEmpty then
                  "/".intercalate ("" :: (codesOf s.body).map fun d => encNames (sortNames (dedup (mlKeys bodyArgs d))))
                else "-"),
+      "FE=" ++ (let fe := forErrors c loopFors s.frames s.body
+                if fe.isEmpty then "_" else "+".intercalate (fe.map toString)),
       "X=" ++ encNames ((s.ids :: s.extraIds).flatMap (fun i => i.conflicts c)),
       -- keys of `__M_locals = __M_dict_builtin(k=k, …)` without a Python binding: NameError at entry
       "E=" ++ encNames ((s.mlocals.getD []).filter fun k =>
@@ -139,15 +142,16 @@ def handle : Handler
   | "full" :: rest => do
       let (c, r) ← parseCfg rest
       match r with
-      | imp :: ctx :: cnone :: bi :: extra :: stops :: toks => do
+      | imp :: ctx :: cnone :: bi :: extra :: stops :: lfs :: toks => do
           let imp ← decNames imp; let ctx ← decNames ctx; let cnone ← decNames cnone
           let bi ← decNames bi; let extra ← decNames extra
           let stops ← (if stops == "_" then some [] else (stops.splitOn "+").mapM (·.toNat?))
+          let lfs ← (if lfs == "_" then some [] else (lfs.splitOn "+").mapM (·.toNat?))
           let (t, left) ← parseBody (toks.length + 1) toks
           if !left.isEmpty then none else
           let rt := mkRT imp ctx bi cnone
           let tops := (moduleIds c t).topdefs
-          let scopes := (allScopes c t).map (encScope c rt tops extra (bodyFrame c t).ids.argDecl)
+          let scopes := (allScopes c t).map (encScope c rt tops extra (bodyFrame c t).ids.argDecl lfs)
           let fr := bodyFrame c t
           let mls := stops.map fun k =>
             let a := mlRun fr.ids.argDecl k t (mlInit fr.ids.argDecl, false)
@@ -156,6 +160,9 @@ def handle : Handler
           pure (";".intercalate scopes ++ " #C=" ++ encNames (dedup (compileConflicts c t))
                 ++ " #ML=" ++ (if mls.isEmpty then "_" else ";".intercalate mls))
       | _ => none
+  | ["forrewrite", el, m] => do
+      let el ← decBool el; let m ← decBool m
+      pure (encBool (forRewritten { enableLoop := el } m))
   | ["reserved", rl] => do
       let rl ← decBool rl
       pure (encNames (({ reservedLoop := rl } : Cfg).reserved))
